@@ -1,10 +1,15 @@
 (** Proofs about Model/Setup.v: the run compiled by the component machines refines the specification run
     (C03 + C04 carried through Model/Sim.v by the relational bisimulation), and the closed symmetry
-    theorems: time shift (C14) and time mirror (C10) of whole set-ups. *)
-From Coq Require Import ZArith QArith Qround List Bool Lia.
+    theorems: time shift (C14) and time mirror (C10) of whole set-ups.  The advection scheme of the set-up (EF /
+    RK2 / RK4 with fractional-step sampling) enters through [adv_eq] / [move_eq] (the move respects == of the
+    flow at the fractions 0, 1/2, 1) and [m_uf_spec] (the machine's flow at a fractional step is the
+    interpolation at n + f); the last two sections prove that under [no_clip] the stage positions stay inside
+    the clip box of tracker.py and that the scheme is the tracker model's (Model/Tracker.v) scheme. *)
+From Coq Require Import ZArith QArith Qround Qabs List Bool Lia Lqa.
 From Ladim Require Import Base.Num Model.Time Model.ForcingTime Model.Release Model.Sim Model.Setup.
 From Ladim Require Import Proofs.SimProofs Proofs.SimRelProofs Proofs.ForcingTimeProofs Proofs.ReleaseProofs
   Proofs.SimInvProofs.
+From Ladim Require Model.Tracker.
 Import ListNotations.
 Open Scope Z_scope.
 
@@ -45,24 +50,60 @@ Proof.
   rewrite (face_eq s U U' _ HU), (face_eq s U U' (_ + 1) HU), Hx. reflexivity.
 Qed.
 
-Lemma move_eq s u u' v w c : (u == u')%Q -> pv_eq v w ->
-  pv_eq (fst (move s u v c)) (fst (move s u' w c)) /\ snd (move s u v c) = snd (move s u' w c).
+(** two flows that agree at the fractional steps the schemes sample *)
+Definition uf_eq (uf uf' : Q -> Q) : Prop :=
+  (uf 0 == uf' 0)%Q /\ (uf (1 # 2) == uf' (1 # 2))%Q /\ (uf 1 == uf' 1)%Q.
+Lemma uf_eq_refl uf : uf_eq uf uf.
+Proof. unfold uf_eq. repeat split; reflexivity. Qed.
+Lemma stage_eq s uf uf' c f x x' : (uf f == uf' f)%Q -> (x == x')%Q -> (stage s uf c f x == stage s uf' c f x')%Q.
+Proof. intros Hu Hx. unfold stage. apply felt_eq; [rewrite Hu; reflexivity|exact Hx]. Qed.
+Lemma rk_pos_eq s x x' fr U U' : (x == x')%Q -> (U == U')%Q -> (rk_pos s x fr U == rk_pos s x' fr U')%Q.
+Proof. intros Hx HU. unfold rk_pos. rewrite Hx, HU. reflexivity. Qed.
+Lemma avg_eq (a b c d a' b' c' d' : Q) : (a == a' -> b == b' -> c == c' -> d == d' ->
+  (a + 2 * b + 2 * c + d) / 6 == (a' + 2 * b' + 2 * c' + d') / 6)%Q.
+Proof. intros -> -> -> ->. reflexivity. Qed.
+Lemma adv_eq s uf uf' c x x' : uf_eq uf uf' -> (x == x')%Q -> (adv s uf c x == adv s uf' c x')%Q.
+Proof.
+  intros (H0 & Hh & H1) Hx. unfold adv.
+  pose proof (stage_eq s uf uf' c 0 x x' H0 Hx) as E1.
+  destruct (s_adv s =? 1).
+  - cbv zeta. apply stage_eq; [exact Hh|]. apply rk_pos_eq; assumption.
+  - destruct (s_adv s =? 2); [|exact E1]. cbv zeta.
+    pose proof (stage_eq s uf uf' c (1 # 2) _ _ Hh (rk_pos_eq s x x' (1 # 2) _ _ Hx E1)) as E2.
+    pose proof (stage_eq s uf uf' c (1 # 2) _ _ Hh (rk_pos_eq s x x' (1 # 2) _ _ Hx E2)) as E3.
+    pose proof (stage_eq s uf uf' c 1 _ _ H1 (rk_pos_eq s x x' 1 _ _ Hx E3)) as E4.
+    exact (avg_eq _ _ _ _ _ _ _ _ E1 E2 E3 E4).
+Qed.
+
+Lemma move_eq s uf uf' v w c : uf_eq uf uf' -> pv_eq v w ->
+  pv_eq (fst (move s uf v c)) (fst (move s uf' w c)) /\ snd (move s uf v c) = snd (move s uf' w c).
 Proof.
   intros Hu (A & B & C & D). unfold move.
-  assert (Qred (vx v + felt s (u * cfac s c) (vx v) * s_dtdx s) =
-          Qred (vx w + felt s (u' * cfac s c) (vx w) * s_dtdx s)) as E.
-  { apply Qred_complete.
-    rewrite (felt_eq s (u * cfac s c) (u' * cfac s c) (vx v) (vx w)); [|rewrite Hu; reflexivity|exact A].
-    rewrite A. reflexivity. }
+  assert (Qred (vx v + adv s uf c (vx v) * s_dtdx s) =
+          Qred (vx w + adv s uf' c (vx w) * s_dtdx s)) as E.
+  { apply Qred_complete. rewrite (adv_eq s uf uf' c (vx v) (vx w) Hu A). rewrite A. reflexivity. }
   rewrite E.
   destruct (Qlt_bool (s_lo s) _ && Qlt_bool _ (s_hi s)); [destruct (is_land s _)|]; cbn; split; try reflexivity;
     unfold pv_eq; cbn; repeat split; (reflexivity || assumption).
 Qed.
 
 (** * what [move] does (the tracker's land / valid-region rules of Model/Tracker.v along the particle line) *)
-Definition cand (s : setup) (u : Q) (v : pv) (c : Z) : Q := Qred (vx v + felt s (u * cfac s c) (vx v) * s_dtdx s)%Q.
-Lemma cand_value s u v c : (cand s u v c == vx v + felt s (u * cfac s c) (vx v) * s_dtdx s)%Q.
+Definition cand (s : setup) (u : Q -> Q) (v : pv) (c : Z) : Q := Qred (vx v + adv s u c (vx v) * s_dtdx s)%Q.
+Lemma cand_value s u v c : (cand s u v c == vx v + adv s u c (vx v) * s_dtdx s)%Q.
 Proof. apply Qred_correct. Qed.
+(** the velocity of the move, scheme by scheme (tracker.py EF / RK2 / RK4 without the clip) *)
+Lemma adv_EF s uf c x : s_adv s = 0 -> adv s uf c x = felt s (uf 0%Q * cfac s c) x.
+Proof. intro E. unfold adv. rewrite E. reflexivity. Qed.
+Lemma adv_RK2 s uf c x : s_adv s = 1 ->
+  adv s uf c x = felt s (uf (1 # 2)%Q * cfac s c) (x + (1 # 2) * felt s (uf 0%Q * cfac s c) x * s_dtdx s)%Q.
+Proof. intro E. unfold adv. rewrite E. reflexivity. Qed.
+Lemma adv_RK4 s uf c x : s_adv s = 2 ->
+  let U1 := felt s (uf 0%Q * cfac s c) x in
+  let U2 := felt s (uf (1 # 2)%Q * cfac s c) (x + (1 # 2) * U1 * s_dtdx s)%Q in
+  let U3 := felt s (uf (1 # 2)%Q * cfac s c) (x + (1 # 2) * U2 * s_dtdx s)%Q in
+  let U4 := felt s (uf 1%Q * cfac s c) (x + 1 * U3 * s_dtdx s)%Q in
+  adv s uf c x = ((U1 + 2 * U2 + 2 * U3 + U4) / 6)%Q.
+Proof. intro E. unfold adv. rewrite E. reflexivity. Qed.
 Definition inside (s : setup) (x : Q) : bool := Qlt_bool (s_lo s) x && Qlt_bool x (s_hi s).
 (** killed iff the candidate is outside the valid interval; a killed particle keeps its value *)
 Lemma move_alive_iff s u v c : snd (move s u v c) = inside s (cand s u v c).
@@ -118,7 +159,7 @@ Proof.
   - exact Hrel.
   - intros n v W. exact W.
   - intros n v c v' [W1 W2] E. unfold m_track in E.
-    assert (v' = fst (move s (m_u s n) v c)) as -> by (rewrite E; reflexivity).
+    assert (v' = fst (move s (m_uf s n) v c)) as -> by (rewrite E; reflexivity).
     split; [apply move_stays_inside; exact W1|apply move_stays_at_sea; exact W2].
   - intros n v v' W E. unfold ibm in E. injection E as <- _. exact W.
 Qed.
@@ -144,7 +185,8 @@ Record ok_facts (s : setup) : Prop := {
   of_started : started s = true;
   of_nodup : nodupb (map fstep (s_raw s)) = true;
   of_readable : readable (s_raw s) (s_disk s) = true;
-  of_covers : forall n, n < s_nsteps s -> covers (s_raw s) n = true }.
+  of_covers : forall n, n < s_nsteps s -> covers (s_raw s) n = true;
+  of_noclip : no_clip s = true }.
 
 Lemma setup_ok_facts s : setup_ok s = true -> ok_facts s.
 Proof.
@@ -176,13 +218,31 @@ Proof.
     rewrite last_map_seq. rewrite Z2Nat.id by exact Hn. reflexivity.
 Qed.
 
-Lemma m_u_spec s n : ok_facts s -> 0 <= n < s_nsteps s -> (m_u s n == sp_u s n)%Q.
+(** the fractional steps at which Forcing.velocity interpolates (f = 0, or 1/1000 <= f <= 1): the machine's flow
+    is the linear interpolation of the frames at n + f, with the reversal sign (C03: [fractional_velocity]) *)
+Definition frac_ok (f : Q) : Prop := ((f == 0 \/ 1 # 1000 <= f) /\ f <= 1)%Q.
+Lemma m_uf_spec' s n f : nodupb (map fstep (s_raw s)) = true -> readable (s_raw s) (s_disk s) = true ->
+  covers (s_raw s) n = true -> 0 <= n -> frac_ok f -> (m_uf s n f == sp_uf s n f)%Q.
 Proof.
-  intros F Hn. unfold m_u, sp_u, m_fstate.
-  destruct (forcing_refines_lerp (s_raw s) (s_disk s) true (rev (s_tk s)) n (of_nodup s F) (of_readable s F)
-              (of_covers s F n (proj2 Hn)) (proj1 Hn)) as (st & v & E1 & E2 & _ & H).
+  intros A B C Hn [Hf Hf1]. unfold m_uf, sp_uf, m_fstate.
+  destruct (fractional_velocity (s_raw s) (s_disk s) true (rev (s_tk s)) n f A B C Hn Hf Hf1) as (st & v & E1 & E2 & H).
   rewrite E1, E2. exact H.
 Qed.
+Lemma m_uf_spec s n f : ok_facts s -> 0 <= n < s_nsteps s -> frac_ok f -> (m_uf s n f == sp_uf s n f)%Q.
+Proof.
+  intros F Hn Hf.
+  exact (m_uf_spec' s n f (of_nodup s F) (of_readable s F) (of_covers s F n (proj2 Hn)) (proj1 Hn) Hf).
+Qed.
+Lemma frac_ok_0 : frac_ok 0. Proof. unfold frac_ok. split; [left; reflexivity|discriminate]. Qed.
+Lemma frac_ok_half : frac_ok (1 # 2). Proof. unfold frac_ok. split; [right|]; discriminate. Qed.
+Lemma frac_ok_1 : frac_ok 1. Proof. unfold frac_ok. split; [right|]; discriminate. Qed.
+Lemma m_uf_eq s n : ok_facts s -> 0 <= n < s_nsteps s -> uf_eq (m_uf s n) (sp_uf s n).
+Proof.
+  intros F Hn. unfold uf_eq.
+  repeat split; apply m_uf_spec; auto using frac_ok_0, frac_ok_half, frac_ok_1.
+Qed.
+Lemma m_u_spec s n : ok_facts s -> 0 <= n < s_nsteps s -> (m_u s n == sp_u s n)%Q.
+Proof. intros F Hn. apply m_uf_spec; [exact F|exact Hn|exact frac_ok_0]. Qed.
 
 Lemma m_temp_spec s n : ok_facts s -> 0 <= n < s_nsteps s -> (m_temp s n == sp_temp s n)%Q.
 Proof.
@@ -205,7 +265,7 @@ Proof.
   - intros n Hn. unfold m_release, sp_release. rewrite (m_rows_spec s n F (proj1 Hn)). apply Forall2_refl_rows.
   - intros n v w Hn R. unfold m_force, sp_force. apply with_temp_eq; [exact R|apply m_temp_spec; assumption].
   - intros n v w _ (_ & B & _). exact B.
-  - intros n v w c Hn R. unfold m_track, sp_track. apply move_eq; [apply m_u_spec; assumption|exact R].
+  - intros n v w c Hn R. unfold m_track, sp_track. apply move_eq; [apply m_uf_eq; assumption|exact R].
   - intros n v w _ R. apply ibm_eq. exact R.
   - reflexivity.
   - intros n Hn. split; exact Hn.
@@ -214,20 +274,21 @@ Qed.
 (** * Two well-formed set-ups with the same physics whose SPECIFICATION environments agree run alike *)
 Definition phys_eq (s s' : setup) : Prop :=
   s_period s' = s_period s /\ s_dtdx s' = s_dtdx s /\ s_lo s' = s_lo s /\ s_hi s' = s_hi s /\
-  s_life s' = s_life s /\ s_cfac s' = s_cfac s /\ s_land s' = s_land s.
+  s_life s' = s_life s /\ s_cfac s' = s_cfac s /\ s_land s' = s_land s /\ s_adv s' = s_adv s.
 
 Lemma move_phys s s' u v c : phys_eq s s' -> move s' u v c = move s u v c.
 Proof.
-  intros (_ & A & B & C & _ & E & L). unfold move, felt, face, is_land, cfac. rewrite A, B, C, E, L. reflexivity.
+  intros (_ & A & B & C & _ & E & L & Ad). unfold move, adv, rk_pos, stage, felt, face, is_land, cfac.
+  rewrite A, B, C, E, L, Ad. reflexivity.
 Qed.
 Lemma ibm_phys s s' n v : phys_eq s s' -> ibm s' n v = ibm s n v.
-Proof. intros (_ & _ & _ & _ & D & _ & _). unfold ibm. rewrite D. reflexivity. Qed.
+Proof. intros (_ & _ & _ & _ & D & _). unfold ibm. rewrite D. reflexivity. Qed.
 Lemma due_phys s s' n : phys_eq s s' -> s_due s' n = s_due s n.
 Proof. intros (A & _). unfold s_due. rewrite A. reflexivity. Qed.
 
 Theorem runs_alike s s' : setup_ok s = true -> setup_ok s' = true -> phys_eq s s' ->
   s_nsteps s' = s_nsteps s ->
-  (forall n, 0 <= n < s_nsteps s -> (sp_u s n == sp_u s' n)%Q) ->
+  (forall n f, 0 <= n < s_nsteps s -> (sp_uf s n f == sp_uf s' n f)%Q) ->
   (forall n, 0 <= n < s_nsteps s -> (sp_temp s n == sp_temp s' n)%Q) ->
   (forall n, 0 <= n < s_nsteps s -> sp_release s n = sp_release s' n) ->
   srel pv pv Z pv_eq (m_run s) (m_run s').
@@ -242,8 +303,269 @@ Proof.
     rewrite (m_temp_spec s n F Hn), (Ht n Hn). symmetry. apply m_temp_spec; [exact F'|rewrite HN; exact Hn].
   - intros n v w _ (_ & B & _). exact B.
   - intros n v w c Hn R. unfold m_track. rewrite (move_phys s s' _ _ _ P). apply move_eq; [|exact R].
-    rewrite (m_u_spec s n F Hn), (Hu n Hn). symmetry. apply m_u_spec; [exact F'|rewrite HN; exact Hn].
+    assert (0 <= n < s_nsteps s') as Hn' by (rewrite HN; exact Hn).
+    destruct (m_uf_eq s n F Hn) as (A0 & Ah & A1). destruct (m_uf_eq s' n F' Hn') as (B0 & Bh & B1).
+    unfold uf_eq. rewrite A0, Ah, A1, B0, Bh, B1. repeat split; apply Hu; exact Hn.
   - intros n v w _ R. rewrite (ibm_phys s s' _ _ P). apply ibm_eq. exact R.
   - intros n _. symmetry. apply due_phys. exact P.
   - intros n Hn. split; exact Hn.
 Qed.
+
+(** * [no_clip]: the stage positions of the Runge-Kutta schemes stay inside the clip box of tracker.py
+
+    tracker.py clips every stage position into [xmin + 0.01, xmax - 0.01] = [lo - 49/100, hi + 49/100]
+    (lo = xmin + 1/2, hi = xmax - 1/2 bound the valid interval); Model/Setup.v leaves the clip out.  Under
+    [setup_ok] ([no_clip]) the flow any stage feels moves a particle by at most 98/100 (RK2) / 49/100 (RK4) of a
+    cell per step — the felt flow lies between 0 and the flow, the flow at a fractional step is a convex
+    combination of two frames — so every stage position of a particle inside (lo, hi) lies in the box and the
+    clip is the identity. *)
+Lemma felt_abs s U x : (Qabs (felt s U x) <= Qabs U)%Q.
+Proof.
+  unfold felt. set (k0 := qfloor (x - (1 # 2))). set (p := (x - (1 # 2) - inject_Z k0)%Q).
+  assert (0 <= p /\ p < 1)%Q as [P0 P1].
+  { pose proof (qfloor_spec (x - (1 # 2))) as [A B]. fold k0 in A, B.
+    rewrite inject_Z_plus in B. change (inject_Z 1) with 1%Q in B. unfold p. split; lra. }
+  apply Qabs_Qle_condition.
+  assert (- Qabs U <= U /\ U <= Qabs U)%Q as [L R] by (apply Qabs_Qle_condition; apply Qle_refl).
+  pose proof (Qabs_nonneg U) as NN. revert L R NN. generalize (Qabs U). intros M L R NN.
+  unfold face. destruct (is_land s k0 || is_land s (k0 + 1)), (is_land s (k0 + 1) || is_land s (k0 + 1 + 1)); split; nra.
+Qed.
+
+Lemma lerp_conv (a b fa fb x K bd : Q) : (a <= x <= b -> - bd <= fa * K <= bd -> - bd <= fb * K <= bd ->
+  - bd <= lerp a fa b fb x * K <= bd)%Q.
+Proof.
+  intros [Hax Hxb] HA HB. unfold lerp. set (t := ((x - a) / (b - a))%Q).
+  assert (0 <= t <= 1)%Q as [T0 T1].
+  { destruct (Qeq_dec (b - a) 0) as [E|E].
+    - assert (t == 0)%Q as -> by (unfold t, Qdiv; rewrite E; change (/ 0)%Q with 0%Q; ring). split; lra.
+    - assert (0 < b - a)%Q as P by (destruct (Qlt_le_dec 0 (b - a)); [assumption|exfalso; apply E; lra]).
+      unfold t. split; [apply Qle_shift_div_l|apply Qle_shift_div_r]; try exact P; lra. }
+  assert ((fa + (fb - fa) * t) * K == (1 - t) * (fa * K) + t * (fb * K))%Q as -> by ring.
+  revert HA HB. generalize (fa * K)%Q (fb * K)%Q. intros A B HA HB. split; nra.
+Qed.
+
+Lemma lerp_spec_conv pts K bd : (forall p, In p pts -> (- bd <= snd p * K <= bd)%Q) ->
+  forall x v, lerp_spec pts x = Some v -> (- bd <= v * K <= bd)%Q.
+Proof.
+  induction pts as [|[a fa] r IH]; intros H x v E; [discriminate|]. cbn [lerp_spec] in E.
+  destruct r as [|[b fb] r'].
+  - destruct (Qeq_bool x (inject_Z a)); [|discriminate]. injection E as <-. exact (H (a, fa) (or_introl eq_refl)).
+  - destruct (Qle_bool (inject_Z a) x && Qle_bool x (inject_Z b)) eqn:B.
+    + injection E as <-. apply andb_true_iff in B as [B1 B2]. apply Qle_bool_iff in B1. apply Qle_bool_iff in B2.
+      apply lerp_conv; [split; assumption| |].
+      * exact (H (a, fa) (or_introl eq_refl)).
+      * exact (H (b, fb) (or_intror (or_introl eq_refl))).
+    + apply (IH (fun p Hp => H p (or_intror Hp)) x v E).
+Qed.
+
+Lemma nth_opt_In {A} (l : list A) : forall n x, nth_opt l n = Some x -> In x l.
+Proof.
+  induction l as [|a l IH]; intros [|n] x E; cbn in E; try discriminate.
+  - injection E as <-. left; reflexivity.
+  - right. exact (IH n x E).
+Qed.
+Lemma znth_opt_In {A} (l : list A) i x : znth_opt l i = Some x -> In x l.
+Proof. unfold znth_opt. destruct (i <? 0); [discriminate|apply nth_opt_In]. Qed.
+
+Lemma uval_small files raw K bd : (0 <= bd)%Q ->
+  (forall r : record, In r (concat files) -> (- bd <= snd (fst r) * K <= bd)%Q) ->
+  forall st, (- bd <= uval raw (disk_of files) st * K <= bd)%Q.
+Proof.
+  intros Hb H st. unfold uval, frame_val.
+  assert (- bd <= 0 * K <= bd)%Q as Z0 by (split; lra).
+  destruct (lookup raw st) as [fr|]; [|exact Z0].
+  unfold disk_of. destruct (znth_opt files (ffile fr)) as [f|] eqn:Ef; [|exact Z0].
+  destruct (znth_opt f (fidx fr)) as [[[x uv] sv]|] eqn:Ei; [|exact Z0]. cbn [fst].
+  apply (H (x, uv, sv)). apply in_concat. exists f. split; eapply znth_opt_In; eassumption.
+Qed.
+
+Lemma sp_uf_small s K bd n f : (0 <= bd)%Q ->
+  (forall r : record, In r (concat (s_files s)) -> (- bd <= snd (fst r) * K <= bd)%Q) ->
+  (- bd <= sp_uf s n f * K <= bd)%Q.
+Proof.
+  intros Hb H. unfold sp_uf.
+  destruct (lerp_spec (upts (s_raw s) (s_disk s)) (inject_Z n + f)) as [v|] eqn:E; [|split; lra].
+  assert (- bd <= v * K <= bd)%Q as [L R].
+  { apply (lerp_spec_conv (upts (s_raw s) (s_disk s)) K bd) with (x := (inject_Z n + f)%Q); [|exact E].
+    intros p Hp. unfold upts in Hp. apply in_map_iff in Hp as (st & <- & _). cbn [snd].
+    apply uval_small; assumption. }
+  destruct (rev (s_tk s)); [|split; assumption].
+  assert (- v * K == - (v * K))%Q as -> by ring. split; lra.
+Qed.
+
+Lemma cfac_in s c : In (cfac s c) (1%Q :: s_cfac s).
+Proof.
+  unfold cfac. destruct (znth_opt (s_cfac s) c) as [q|] eqn:E; [right; eapply znth_opt_In; exact E|left; reflexivity].
+Qed.
+Lemma disp_le_spec s b c : disp_le s b = true ->
+  forall r : record, In r (concat (s_files s)) -> (- b <= snd (fst r) * (cfac s c * s_dtdx s) <= b)%Q.
+Proof.
+  intros H r Hr. unfold disp_le in H. rewrite forallb_forall in H. specialize (H r Hr).
+  rewrite forallb_forall in H. specialize (H (cfac s c) (cfac_in s c)). apply Qle_bool_iff in H.
+  apply Qabs_Qle_condition. rewrite !Qabs_Qmult. rewrite Qmult_assoc. exact H.
+Qed.
+
+(** the fractional steps the schemes sample, and the positions at which the later stages sample the flow *)
+Definition fr3 (f : Q) : Prop := f = 0%Q \/ f = (1 # 2)%Q \/ f = 1%Q.
+Definition stage_points (s : setup) (uf : Q -> Q) (c : Z) (x : Q) : list Q :=
+  if s_adv s =? 1 then [rk_pos s x (1 # 2) (stage s uf c 0 x)]
+  else if s_adv s =? 2 then
+    let X1 := rk_pos s x (1 # 2) (stage s uf c 0 x) in
+    let X2 := rk_pos s x (1 # 2) (stage s uf c (1 # 2) X1) in
+    let X3 := rk_pos s x 1 (stage s uf c (1 # 2) X2) in
+    [X1; X2; X3]
+  else [].
+Definition in_box (s : setup) (X : Q) : Prop := (s_lo s - (49 # 100) <= X <= s_hi s + (49 # 100))%Q.
+
+Section Box.
+  Variables (s : setup) (uf : Q -> Q) (c : Z) (b : Q).
+  Hypothesis Hsm : forall f, fr3 f -> (- b <= uf f * (cfac s c * s_dtdx s) <= b)%Q.
+
+  (** no stage velocity moves the particle by more than b cells in a whole step *)
+  Lemma stage_disp f X : fr3 f -> (- b <= stage s uf c f X * s_dtdx s <= b)%Q.
+  Proof.
+    intro Hf. apply Qabs_Qle_condition. unfold stage. rewrite Qabs_Qmult.
+    apply Qle_trans with (Qabs (uf f * cfac s c) * Qabs (s_dtdx s))%Q.
+    - apply Qmult_le_compat_r; [apply felt_abs|apply Qabs_nonneg].
+    - rewrite <- Qabs_Qmult. apply Qabs_Qle_condition.
+      assert (uf f * cfac s c * s_dtdx s == uf f * (cfac s c * s_dtdx s))%Q as -> by ring. exact (Hsm f Hf).
+  Qed.
+  Lemma rk_pos_box x fr f X : fr3 f -> inside s x = true -> (0 <= fr)%Q -> (fr * b <= 49 # 100)%Q ->
+    in_box s (rk_pos s x fr (stage s uf c f X)).
+  Proof.
+    intros Hf Hin F0 Fb. destruct (stage_disp f X Hf) as [L R].
+    unfold inside in Hin. apply andb_true_iff in Hin as [I1 I2]. apply Qlt_bool_true in I1. apply Qlt_bool_true in I2.
+    unfold in_box, rk_pos.
+    assert (x + fr * stage s uf c f X * s_dtdx s == x + fr * (stage s uf c f X * s_dtdx s))%Q as -> by ring.
+    revert L R. generalize (stage s uf c f X * s_dtdx s)%Q. intros d L R. split; nra.
+  Qed.
+  Lemma stage_points_box x : inside s x = true ->
+    (s_adv s = 1 -> (b == 98 # 100)%Q) -> (s_adv s = 2 -> (b == 49 # 100)%Q) ->
+    Forall (in_box s) (stage_points s uf c x).
+  Proof.
+    intros Hin B1 B2. unfold stage_points.
+    destruct (Z.eqb_spec (s_adv s) 1) as [E1|_].
+    - constructor; [|constructor]. apply rk_pos_box; [left; reflexivity|exact Hin|discriminate|].
+      rewrite (B1 E1). discriminate.
+    - destruct (Z.eqb_spec (s_adv s) 2) as [E2|_]; [|constructor]. cbv zeta.
+      assert (fr3 0%Q) as F0 by (left; reflexivity). assert (fr3 (1 # 2)%Q) as Fh by (right; left; reflexivity).
+      constructor; [|constructor; [|constructor; [|constructor]]]; apply rk_pos_box; try assumption; try discriminate;
+        rewrite (B2 E2); discriminate.
+  Qed.
+End Box.
+
+(** under [no_clip] a bound b on the displacements of all frames exists that suits the scheme; EF has no stages *)
+Lemma stage_points_ef s uf c x : s_adv s <> 1 -> s_adv s <> 2 -> stage_points s uf c x = [].
+Proof.
+  intros N1 N2. unfold stage_points.
+  destruct (Z.eqb_spec (s_adv s) 1); [contradiction|]. destruct (Z.eqb_spec (s_adv s) 2); [contradiction|reflexivity].
+Qed.
+Lemma boxed s uf c x : no_clip s = true -> inside s x = true ->
+  (forall b f, (0 <= b)%Q -> fr3 f ->
+     (forall r : record, In r (concat (s_files s)) -> (- b <= snd (fst r) * (cfac s c * s_dtdx s) <= b)%Q) ->
+     (- b <= uf f * (cfac s c * s_dtdx s) <= b)%Q) ->
+  Forall (in_box s) (stage_points s uf c x).
+Proof.
+  intros Hnc Hin H. unfold no_clip in Hnc.
+  destruct (Z.eq_dec (s_adv s) 1) as [E1|N1]; [|destruct (Z.eq_dec (s_adv s) 2) as [E2|N2]].
+  - rewrite E1 in Hnc. cbn in Hnc. apply (stage_points_box s uf c (98 # 100)); try assumption.
+    + intros f Hf. apply H; [discriminate|exact Hf|apply disp_le_spec; exact Hnc].
+    + reflexivity.
+    + intro; lia.
+  - rewrite E2 in Hnc. cbn in Hnc. apply (stage_points_box s uf c (49 # 100)); try assumption.
+    + intros f Hf. apply H; [discriminate|exact Hf|apply disp_le_spec; exact Hnc].
+    + intro; lia.
+    + reflexivity.
+  - rewrite stage_points_ef by assumption. constructor.
+Qed.
+
+Theorem sp_stages_in_box s n v c : no_clip s = true -> inside s (vx v) = true ->
+  Forall (in_box s) (stage_points s (sp_uf s n) c (vx v)).
+Proof.
+  intros Hnc Hin. apply boxed; try assumption.
+  intros b f Hb _ H. apply sp_uf_small; assumption.
+Qed.
+
+(** T-clip: in every well-formed set-up, at every step of the run, every stage position of a particle inside
+    the valid interval lies in the clip box of tracker.py — the clip the model leaves out is the identity *)
+Theorem stages_in_box s n v c : setup_ok s = true -> 0 <= n < s_nsteps s -> inside s (vx v) = true ->
+  Forall (in_box s) (stage_points s (m_uf s n) c (vx v)).
+Proof.
+  intros Hok Hn Hin. pose proof (setup_ok_facts s Hok) as F.
+  apply boxed; [exact (of_noclip s F)|exact Hin|].
+  intros b f Hb Hf H. rewrite (m_uf_spec s n f F Hn).
+  - apply sp_uf_small; assumption.
+  - destruct Hf as [->|[->| ->]]; auto using frac_ok_0, frac_ok_half, frac_ok_1.
+Qed.
+Corollary stages_not_clipped s n v c : setup_ok s = true -> 0 <= n < s_nsteps s -> inside s (vx v) = true ->
+  Forall (fun X => Tracker.clipq (s_lo s - (49 # 100)) (s_hi s + (49 # 100)) X == X)%Q (stage_points s (m_uf s n) c (vx v)).
+Proof.
+  intros Hok Hn Hin. eapply Forall_impl; [|exact (stages_in_box s n v c Hok Hn Hin)].
+  intros X [L R]. unfold Tracker.clipq, Qmin', Qmax'.
+  assert (Qle_bool X (s_hi s + (49 # 100)) = true) as -> by (apply Qle_bool_iff; exact R).
+  destruct (Qle_bool X (s_lo s - (49 # 100))) eqn:Q'; [|reflexivity].
+  apply Qle_bool_iff in Q'. lra.
+Qed.
+
+(** * the schemes of the set-up ARE the tracker model's schemes (Model/Tracker.v: EF, RK2, RK4 with the clip —
+    the model tied to tracker.py by the correspondences of C01 / C09) along the particle line: velocity oracle
+    [vel1] = (flow felt at the stage position at the stage fraction, 0), clip box [lo - 49/100, hi + 49/100] in
+    x; whenever the stage positions lie in the box (always under [setup_ok]: [stages_in_box]) the clipped schemes
+    of Tracker.v give the velocity [adv] *)
+Definition vel1 (s : setup) (uf : Q -> Q) (c : Z) : Q -> Q -> Q -> Q * Q := fun f X _ => (stage s uf c f X, 0%Q).
+Lemma clipq_id lo hi X : (lo <= X <= hi)%Q -> (Tracker.clipq lo hi X == X)%Q.
+Proof.
+  intros [L R]. unfold Tracker.clipq, Qmin', Qmax'.
+  assert (Qle_bool X hi = true) as -> by (apply Qle_bool_iff; exact R).
+  destruct (Qle_bool X lo) eqn:Q'; [|reflexivity]. apply Qle_bool_iff in Q'. lra.
+Qed.
+Section Link.
+  Variables (s : setup) (uf : Q -> Q) (c : Z) (x y dtdy ylo yhi : Q).
+  Let xlo := (s_lo s - (49 # 100))%Q.
+  Let xhi := (s_hi s + (49 # 100))%Q.
+  Hypothesis Hbox : Forall (in_box s) (stage_points s uf c x).
+
+  Theorem adv_is_tracker_EF : s_adv s = 0 -> (adv s uf c x == fst (Tracker.EF (vel1 s uf c) x y))%Q.
+  Proof. intro E. rewrite (adv_EF s uf c x E). reflexivity. Qed.
+
+  Theorem adv_is_tracker_RK2 : s_adv s = 1 ->
+    (adv s uf c x == fst (Tracker.RK2 (vel1 s uf c) (s_dtdx s) dtdy xlo xhi ylo yhi x y))%Q.
+  Proof.
+    intro E. unfold stage_points in Hbox. rewrite E in Hbox. cbn [Z.eqb Pos.eqb] in Hbox.
+    inversion Hbox as [|X1 l B1 _]; subst.
+    unfold adv. rewrite E. cbn [Z.eqb Pos.eqb]. cbv zeta.
+    unfold Tracker.RK2, vel1, Tracker.rkstep, Tracker.clip2. cbn [fst snd].
+    apply stage_eq; [reflexivity|]. symmetry. unfold rk_pos in *. apply clipq_id. exact B1.
+  Qed.
+
+  Theorem adv_is_tracker_RK4 : s_adv s = 2 ->
+    (adv s uf c x == fst (Tracker.RK4 (vel1 s uf c) (s_dtdx s) dtdy xlo xhi ylo yhi x y))%Q.
+  Proof.
+    intro E. unfold stage_points in Hbox. rewrite E in Hbox. cbn [Z.eqb Pos.eqb] in Hbox. cbv zeta in Hbox.
+    inversion Hbox as [|X1 l1 B1 H1]; subst. inversion H1 as [|X2 l2 B2 H2]; subst.
+    inversion H2 as [|X3 l3 B3 _]; subst.
+    unfold adv. rewrite E. cbn [Z.eqb Pos.eqb]. cbv zeta.
+    unfold Tracker.RK4, vel1, Tracker.rkstep, Tracker.clip2, Tracker.rk4avg. cbn [fst snd].
+    unfold rk_pos in *.
+    pose proof (clipq_id xlo xhi _ B1) as C1.
+    assert (stage s uf c (1 # 2) (x + (1 # 2) * stage s uf c 0 x * s_dtdx s) ==
+            stage s uf c (1 # 2) (Tracker.clipq xlo xhi (x + (1 # 2) * stage s uf c 0 x * s_dtdx s)))%Q as E2
+      by (apply stage_eq; [reflexivity|symmetry; exact C1]).
+    set (U1 := stage s uf c 0 x) in *.
+    set (U2 := stage s uf c (1 # 2) (x + (1 # 2) * U1 * s_dtdx s)) in *.
+    set (U2' := stage s uf c (1 # 2) (Tracker.clipq xlo xhi (x + (1 # 2) * U1 * s_dtdx s))) in *.
+    assert (in_box s (x + (1 # 2) * U2' * s_dtdx s)) as B2' by (unfold in_box in *; rewrite <- E2; exact B2).
+    pose proof (clipq_id xlo xhi _ B2') as C2.
+    assert (stage s uf c (1 # 2) (x + (1 # 2) * U2 * s_dtdx s) ==
+            stage s uf c (1 # 2) (Tracker.clipq xlo xhi (x + (1 # 2) * U2' * s_dtdx s)))%Q as E3.
+    { apply stage_eq; [reflexivity|]. rewrite C2, E2. reflexivity. }
+    set (U3 := stage s uf c (1 # 2) (x + (1 # 2) * U2 * s_dtdx s)) in *.
+    set (U3' := stage s uf c (1 # 2) (Tracker.clipq xlo xhi (x + (1 # 2) * U2' * s_dtdx s))) in *.
+    assert (in_box s (x + 1 * U3' * s_dtdx s)) as B3' by (unfold in_box in *; rewrite <- E3; exact B3).
+    pose proof (clipq_id xlo xhi _ B3') as C3.
+    assert (stage s uf c 1 (x + 1 * U3 * s_dtdx s) ==
+            stage s uf c 1 (Tracker.clipq xlo xhi (x + 1 * U3' * s_dtdx s)))%Q as E4.
+    { apply stage_eq; [reflexivity|]. rewrite C3, E3. reflexivity. }
+    exact (avg_eq _ _ _ _ _ _ _ _ (Qeq_refl U1) E2 E3 E4).
+  Qed.
+End Link.
